@@ -253,6 +253,41 @@ pub fn run(cfg: &Cfg, col: &mut Collector) {
             ("image", img.map(|r| J::A(r.iter().map(|w| J::I(*w as i64)).collect())).unwrap_or(J::Null)),
         ]));
     }
+    // ---- programs with the source text of the statement behind every word (C17 at the CLI)
+    let mut listing = Vec::new();
+    let mut tries = 0;
+    while (listing.len() as u64) < cfg.n(24, 400, 2) && tries < 2000 {
+        tries += 1;
+        let stack = rng.bool();
+        let origin = match rng.below(4) {
+            0 => None,
+            1 => Some(0x8000 + rng.below(0x7000) as i32),
+            _ => Some(gen_origin(&mut rng).clamp(2, 0xF800)),
+        };
+        let o = GenOpts { stack, max_stmts: 16, min_stmts: 3, origin, breaks: false, ..Default::default() };
+        let mut p = gen_program(&mut rng, &o);
+        if origin.is_none() {
+            p.items.retain(|it| !matches!(it, Item::Orig(_)));
+        }
+        let Verdict::Accept(img) = encode(&p) else { continue };
+        if img.words.is_empty() || img.words.len() > 40 || img.origin() as usize + img.words.len() > 0xFDF0 {
+            continue;
+        }
+        let rendered = render(&p, &Layout::random(&mut rng), &mut rng);
+        let texts: Vec<J> = (0..img.words.len())
+            .map(|k| {
+                let (s0, l) = rendered.stmt_spans[img.item_of_word[k]].expect("statement span");
+                J::s(&rendered.text[s0..s0 + l])
+            })
+            .collect();
+        listing.push(J::obj(vec![
+            ("source", J::s(&rendered.text)),
+            ("stack", J::B(stack)),
+            ("origin", J::I(img.origin() as i64)),
+            ("texts", J::A(texts)),
+        ]));
+    }
+    col.extra.push(("listing".into(), J::A(listing)));
     // ---- fuzz inputs for the totality property (C05): same generator as the in-process monitor
     let mut fuzz = Vec::new();
     for i in 0..cfg.n(260, 2000, 4) {
